@@ -7,6 +7,7 @@ own data as the driver knows them independently; refusals must be refusals."""
 from __future__ import annotations
 
 import random
+import re
 
 from common import Ctx, MachineryError, REPO, finish, import_naunet, require_clean_mc, run_tlc, validate_traces
 import cexpr
@@ -218,6 +219,38 @@ def main(ctx: Ctx) -> int:
             t0.update({"tid": len(traces) + 1, "kind": "eb", "ev": ev, "table": int(round(eb12[name[1:]] * 1000)), "line": f"{name}: {seq}", "obs": dict(traces[0]["obs"], expr="")})
             traces.append(t0)
     cov["emitted_binding_energy_constants_checked"] = nconst
+    # two grain populations in one network, each with its own charged and neutral grains and its own ice: the density each population's
+    # rates use, as the NETWORK's grain objects define it
+    from naunet.reactions.reaction import Reaction
+    from naunet.reactiontype import ReactionType as RT
+    mkr = lambda r_, p_, ty_: Reaction(list(r_), list(p_), alpha=1.0, reaction_type=ty_)
+    for model in ("hh93", "hh93i"):
+        for pops in ((0, 1), (0, 2), (0, 1, 2)):
+            Species.reset()
+            reacs = []
+            for g_ in pops:
+                n0, nm = (f"GRAIN{g_}", f"GRAIN{g_}-") if g_ else ("GRAIN0", "GRAIN-")
+                ice = f"#{g_}CO" if g_ else "#CO"
+                reacs += [mkr([n0, "e-"], [nm], RT.GRAIN_ECAPTURE), mkr(["CO"], [ice], RT.GRAIN_FREEZE), mkr([ice], ["CO"], RT.GRAIN_DESORB_THERMAL)]
+            obs = {"refused": False, "valid": True, "tree": ["none"], "expr": "", "err": "", "eb_ok": True}
+            rows = []
+            try:
+                net4 = Network(reacs, grain_model=model)
+                for g4 in net4.grains:
+                    key = next((k4 for k4 in g4.deriveds if k4.startswith("gdens")), None)
+                    val = g4.deriveds.get(key, "") if key else ""
+                    found = re.findall(r"IDX_(\w+)", val)
+                    own = sorted(sp.alias for sp in net4.species if sp.is_grain and (sp.grain_group or 0) == (g4.group or 0))
+                    rows.append({"group": g4.group or 0, "summands": sorted(set(found)), "own": own, "each_once": len(found) == len(set(found)), "text": val})
+            except (NotImplementedError, ValueError, RuntimeError, AttributeError, KeyError) as e:
+                obs["refused"], obs["err"] = True, f"{type(e).__name__}: {str(e)[:80]}"
+                rows = [{"group": -1, "summands": [], "own": [], "each_once": True, "text": ""}]
+            for row in rows:
+                t0 = dict(traces[0])
+                t0.update({"tid": len(traces) + 1, "kind": "density", "model": model, "ev": [row], "obs": obs, "fmt": "api", "ty": 0,
+                           "line": f"{model}, grain populations {pops}: gdens of population {row['group']} = {row['text']!r}"})
+                traces.append(t0)
+    cov["grain_density_definitions_checked"] = sum(1 for t in traces if t["kind"] == "density")
     Species.reset()
     chemistrydata.user_binding_energy.clear()
     chemistrydata.user_photon_yield.clear()
@@ -230,6 +263,10 @@ def main(ctx: Ctx) -> int:
     for tid, rj in sorted(v["rejected"].items()):
         clause = (rj["clauses"] or ["NoEnabledAction"])[0]
         tr = by[tid]
+        if tr["kind"] == "density":
+            ctx.violation(f"C11|{clause}|model={tr['model']},populations", f"{tr['line']}: own grain species {tr['ev'][0]['own']}: {rj['clauses']}",
+                          {"case": tr["line"], "row": tr["ev"][0], "clauses": rj["clauses"]})
+            continue
         if tr["kind"] == "eb":
             ctx.violation(f"C11|{clause}|binding-energy lookup", f"binding energy of {tr['line']}: events {tr['ev']} (thousandths of a kelvin; table value "
                           f"{tr['table']}): {rj['clauses']}", {"sequence": tr["line"], "events": tr["ev"], "table": tr["table"], "clauses": rj["clauses"]})
